@@ -98,7 +98,8 @@ Configs(b) ==
     \cup {c \in {[total |-> t, depth |-> MinDepth(t, b) + x, pat |-> pat, via |-> via] :
                     t \in Totals, x \in Extras, pat \in Patterns \ ShortOnly, via \in Vias} :
              /\ Feasible(c.total, b, c.depth)
-             /\ c.via = "fakeargv0" => c.depth = MinDepth(c.total, b)}      \* (argv[0] is independent of the depth: one depth is enough)
+             /\ c.via \in {"fakeargv0", "path", "chain2"} => c.depth = MinDepth(c.total, b)      \* (independent of the depth: one depth is enough)
+             /\ c.via # "longlink"}                                         \* a link longer than its target needs a short target
 
 (* where the file really is *)
 RealPath(cfg, b) == b \o Comps(cfg, b)
@@ -109,14 +110,32 @@ RealPath(cfg, b) == b \o Comps(cfg, b)
 (* The link components are short ASCII names in the root (never part of the  *)
 (* expected answer).                                                         *)
 LinkName == [len |-> 4, cls |-> "ascii", link |-> TRUE]     \* a name different from every installed component
+LinkName2 == [len |-> 5, cls |-> "ascii", link |-> TRUE]    \* second link of a chain (another name)
+LongLinkDir  == [len |-> 200, cls |-> "ascii", link |-> TRUE]   \* a symbolic link whose own path is longer than its target's:
+LongLinkName == [len |-> 230, cls |-> "ascii", link |-> TRUE]   \*   root/<200 bytes>/<230 bytes>  ->  the (short) installed file
+(* ways of starting the program:
+     direct     by its absolute path
+     relative   argv[0] = "./name", working directory = its directory
+     relcwd     argv[0] = the path relative to the scratch root ("a/b/x"), working directory = the scratch root (elsewhere)
+     path       found through PATH: a bare name, PATH names its directory
+     fakeargv0  argv[0] is an unrelated word
+     filelink   through a symbolic link to the file          dirlink  through a symbolic link to its directory
+     chain2     through a symbolic link to a symbolic link to the file
+     longlink   through a symbolic link whose own path is longer than the path of the file (short configurations only)
+   Only the links change which path is handed to the system; every way names the same installed file. *)
+LinkVias == {"filelink", "dirlink", "chain2", "longlink"}
 DirOf(p) == SubSeq(p, 1, Len(p) - 1)
 Links(cfg, b) ==
     CASE cfg.via = "filelink" -> {[at |-> b \o <<LinkName>>, to |-> RealPath(cfg, b)]}
       [] cfg.via = "dirlink"  -> {[at |-> b \o <<LinkName>>, to |-> DirOf(RealPath(cfg, b))]}
+      [] cfg.via = "chain2"   -> {[at |-> b \o <<LinkName2>>, to |-> b \o <<LinkName>>], [at |-> b \o <<LinkName>>, to |-> RealPath(cfg, b)]}
+      [] cfg.via = "longlink" -> {[at |-> b \o <<LongLinkDir, LongLinkName>>, to |-> RealPath(cfg, b)]}
       [] OTHER                -> {}
 Invoked(cfg, b) ==
     CASE cfg.via = "filelink" -> b \o <<LinkName>>
       [] cfg.via = "dirlink"  -> b \o <<LinkName, RealPath(cfg, b)[Len(RealPath(cfg, b))]>>
+      [] cfg.via = "chain2"   -> b \o <<LinkName2>>
+      [] cfg.via = "longlink" -> b \o <<LongLinkDir, LongLinkName>>
       [] OTHER                -> RealPath(cfg, b)        \* "direct", "relative" and "fakeargv0" (argv[0] is an unrelated word) name the same file
 (* POSIX path resolution: the longest-prefix symbolic link is replaced by its target *)
 RECURSIVE Resolve(_, _, _)
@@ -142,7 +161,12 @@ Unspecified == [any |-> TRUE]
 (* does the observed result obs conform to the result res the spec computed? *)
 (* obs.again: both functions called a second time after the process changed its working directory - the answers  *)
 (* are about where the program is installed, they do not depend on the calls made before or on the directory      *)
-Conforms(res, obs) == /\ {"exe", "prefix", "bytes", "again"} \subseteq DOMAIN obs        \* a crashed call has no such observation
+(* obs.same: the file the returned path names IS the running image (device and inode compared with /proc/self/exe by  *)
+(* the helper - a second, independent route to "names the running binary"); obs.pfx: the returned prefix is a       *)
+(* leading substring of the returned executable path                                                                *)
+Conforms(res, obs) == /\ {"exe", "prefix", "bytes", "again", "same", "pfx"} \subseteq DOMAIN obs        \* a crashed call has no such observation
+                      /\ obs.same
+                      /\ res.prefix = Unspecified \/ obs.pfx
                       /\ obs.exe = res.exe
                       /\ obs.bytes = res.bytes
                       /\ res.prefix = Unspecified \/ obs.prefix = res.prefix
@@ -218,7 +242,10 @@ ConfigLaws(b) ==
            /\ cfg.total # 0 => PathLen(real) = cfg.total                               \* exactly the length aimed at
            /\ \A i \in DOMAIN c : c[i].len >= MinLen(c[i].cls) /\ c[i].len <= NameMax /\ c[i].cls \in Classes
            /\ Resolve(Invoked(cfg, b), Links(cfg, b), 4) = real                          \* however it is started, it is that file
-           /\ cfg.via \in {"filelink", "dirlink"} => Invoked(cfg, b) # real
+           /\ cfg.via \in LinkVias => (Invoked(cfg, b) # real /\ Links(cfg, b) # {})
+           /\ cfg.via \notin LinkVias => (Invoked(cfg, b) = real /\ Links(cfg, b) = {})
+           /\ cfg.via = "longlink" => PathLen(Invoked(cfg, b)) > PathLen(real)          \* the link's own path is the longer one
+           /\ cfg.via = "chain2" => Resolve(Invoked(cfg, b), Links(cfg, b), 1) # real   \* one step is not enough: a chain
            /\ HasGrandparent(real) =>
                  PrefixPath(real).comps \o SubSeq(real, Len(real) - 1, Len(real)) = real   \* prefix + dir + file = the path
 EndianLaws ==
